@@ -1,0 +1,43 @@
+//go:build verif
+// +build verif
+
+package auth
+
+// Export for the verification harness (/verif, property C11).  Built only with
+// the "verif" tag; adds no behaviour to the package.
+
+// VerifAge makes every token of tm d seconds older (both expiry times move d
+// seconds towards the past), which is what the passing of d seconds of wall
+// clock time does to AccessCheck / Refresh / ExpCheck.
+func VerifAge(tm *TokenManager, d int64) {
+	seen := map[*Token]bool{}
+	tm.tokens.Range(func(k, v interface{}) bool {
+		t := v.(*Token)
+		if !seen[t] {
+			seen[t] = true
+			t.AExp -= d
+			t.RExp -= d
+		}
+		return true
+	})
+}
+
+// VerifExpiry reports the remaining life in seconds of the token stored under key (ok = false: no entry).
+func VerifExpiry(tm *TokenManager, key string, now int64) (a, r int64, ok bool) {
+	v, found := tm.tokens.Load(key)
+	if !found {
+		return 0, 0, false
+	}
+	t := v.(*Token)
+	return t.AExp - now, t.RExp - now, true
+}
+
+type verifProvider struct{ users []*User }
+
+func (p *verifProvider) LoadAll() ([]*User, error) { return p.users, nil }
+func (p *verifProvider) Flush(full []*User, saves []*User, removes []*User) error {
+	return nil
+}
+
+// VerifResetUsers restarts the global user manager on an in-memory provider holding exactly users.
+func VerifResetUsers(users []*User) { Reset(&verifProvider{users: users}) }
